@@ -108,6 +108,7 @@ static inline void L0_E_copy_construct(E *d, const E *s) {
   if (l0_cell_at(s)) L0_assert(g_cell_st == ST_LIVE, "C02 C10: copy source is alive and not moved-from");
   if (l0_cell_at(d)) L0_assert(ST_OK_CONSTRUCT(g_cell_st), "C02: construct only on raw memory");
   if (l0_elem_throws()) return;
+  if (l0_tok_at(d)) g_tok_on = 0;      /* a value that sat there (trivially copyable: stale) is overwritten */
   int v = l0_valat(OBJ(s), OFF(s));
   if (l0_cell_at(d)) { g_cell_st = ST_LIVE; g_cell_val = v; }
   if (OBJ(d) == g_tmp_obj && OFF(d) == 0) { g_tmp_has = 1; g_tmp_val = v; }
@@ -120,6 +121,7 @@ static inline void L0_E_move_construct(E *d, E *s) {
   if (l0_cell_at(d)) L0_assert(ST_OK_CONSTRUCT(g_cell_st), "C02: construct only on raw memory");
 #if !CAT_NOTHROW_MOVE
   if (l0_elem_throws()) return;
+  if (l0_tok_at(d)) g_tok_on = 0;      /* a value that sat there (trivially copyable: stale) is overwritten */
 #endif
   int v = l0_valat(OBJ(s), OFF(s));
   if (l0_tok_at(s)) { g_tok_obj = OBJ(d); g_tok_off = OFF(d); }
@@ -133,6 +135,7 @@ static inline void L0_E_value_construct(E *d) {
   l0_range_ok(d, 1, "dst");
   if (l0_cell_at(d)) L0_assert(ST_OK_CONSTRUCT(g_cell_st), "C02: construct only on raw memory");
   if (l0_elem_throws()) return;
+  if (l0_tok_at(d)) g_tok_on = 0;      /* a value that sat there (trivially copyable: stale) is overwritten */
   if (l0_cell_at(d)) { g_cell_st = ST_LIVE; g_cell_val = L0_VAL_INIT; }
   g_nctor++;
 }
@@ -141,6 +144,7 @@ static inline void L0_E_default_construct(E *d) {
   l0_range_ok(d, 1, "dst");
   if (l0_cell_at(d)) L0_assert(ST_OK_CONSTRUCT(g_cell_st), "C02: construct only on raw memory");
   if (l0_elem_throws()) return;
+  if (l0_tok_at(d)) g_tok_on = 0;      /* a value that sat there (trivially copyable: stale) is overwritten */
   if (l0_cell_at(d)) { g_cell_st = ST_LIVE; g_cell_val = nondet_int(); }
   g_nctor++;
 }
@@ -149,6 +153,7 @@ static inline void L0_E_construct_from__i32(E *d, int a) {
   l0_range_ok(d, 1, "dst");
   if (l0_cell_at(d)) L0_assert(ST_OK_CONSTRUCT(g_cell_st), "C02: construct only on raw memory");
   if (l0_elem_throws()) return;
+  if (l0_tok_at(d)) g_tok_on = 0;      /* a value that sat there (trivially copyable: stale) is overwritten */
   if (l0_cell_at(d)) { g_cell_st = ST_LIVE; g_cell_val = nondet_int(); }
   g_nctor++;
 }
@@ -330,11 +335,13 @@ static inline E *L0_uninitialized_fill_n(E *d, int64_t cnt, const E *v) {
   uint64_t n = L0_COUNT(cnt);
   if (n) {
     l0_range_ok(d, n, "dst"); l0_range_ok(v, 1, "value");
-    L0_assert(!l0_in(OBJ(v), OFF(v), d, n), "C02 C10: fill source does not lie in the raw destination");
+    /* (for a trivially copyable type every slot, the source's own included, receives the value the source already has) */
+    L0_assert(CAT_TC || !l0_in(OBJ(v), OFF(v), d, n), "C02 C10: fill source does not lie in the raw destination");
     if (l0_cell_at(v)) L0_assert(g_cell_st == ST_LIVE, "C02 C10: fill source alive and not moved-from");
     if (l0_cell_in(d, n)) L0_assert(ST_OK_CONSTRUCT(g_cell_st), "C02: construct only on raw memory");
     int val = l0_valat(OBJ(v), OFF(v));
     if (l0_elem_throws()) return d;      /* all-or-nothing */
+    if (l0_tok_in(d, n)) g_tok_on = 0;
     if (l0_cell_in(d, n)) { g_cell_st = ST_LIVE; g_cell_val = val; }
     g_nctor += n;
   }
@@ -346,6 +353,7 @@ static inline E *L0_uninitialized_value_construct_n(E *d, int64_t cnt) {
     l0_range_ok(d, n, "dst");
     if (l0_cell_in(d, n)) L0_assert(ST_OK_CONSTRUCT(g_cell_st), "C02: construct only on raw memory");
     if (l0_elem_throws()) return d;
+    if (l0_tok_in(d, n)) g_tok_on = 0;
     if (l0_cell_in(d, n)) { g_cell_st = ST_LIVE; g_cell_val = L0_VAL_INIT; }
     g_nctor += n;
   }
@@ -418,6 +426,21 @@ static inline void *L0_memmove__pE_pE_u64(E *d, const E *s, uint64_t bytes) {
 static inline void *L0_memcpy__pE_pE_u64(E *d, const E *s, uint64_t bytes) {
   if (bytes) L0_assert(l0_disjoint(d, bytes / ESZ, s, bytes / ESZ), "C02: memcpy ranges do not overlap");
   return L0_memmove__pE_pE_u64(d, s, bytes);
+}
+/* memcpy of ONE object of a trivially copyable type into storage that is named only as void* (amc::construct_at for trivially
+ * copyable types): construction of a copy, the source stays where it is */
+static inline void *L0_memcpy__pv_pE_u64(void *d, const E *s, uint64_t bytes) {
+  L0_assert(CAT_TC, "C02: an object is created by a byte copy only for trivially copyable types");
+  L0_assert(bytes == ESZ, "C02: byte copy of one whole element");
+  l0_range_ok((E *)d, 1, "dst"); l0_range_ok(s, 1, "src");
+  L0_assert((E *)d == s || l0_disjoint((E *)d, 1, s, 1), "C02: memcpy ranges do not overlap");
+  {
+    int v = l0_valat(OBJ(s), OFF(s));
+    if (l0_cell_at((E *)d)) { g_cell_st = ST_LIVE; g_cell_val = v; }
+    if (OBJ(d) == g_tmp_obj && OFF(d) == 0) { g_tmp_has = 1; g_tmp_val = v; }
+  }
+  g_nctor++; g_nbytecopy++;
+  return d;
 }
 /* the pointer stored in the first bytes of the inline storage (ElemWithPtrStorage::setDyn / dyn) */
 static inline void *L0_memcpy__a8pu8_ppE_u64(uint8_t (*dst)[8], E **src, uint64_t n) {
